@@ -2,12 +2,13 @@
 """write seeded/<id>/meta.json from seeded/<id>/verify.json (produced by tools/verify_seed.sh)"""
 import json, glob, os, re
 V = os.path.dirname(os.path.dirname(os.path.abspath(__file__)))
+CH = json.load(open(V + "/seeded/CHANGES.json"))
 for f in sorted(glob.glob(V + "/seeded/*/verify.json")):
     d = json.load(open(f))
     sid = d["id"]; dst = os.path.dirname(f)
     ok = d["applies"] == "yes" and d["rc_clean"] == 0 and d["rc_patched"] not in (0, -1) and "174 passed" in d["summary"] and "3 failed" in d["summary"]
     files = re.findall(r"^\+\+\+ b/(\S+)", open(dst + "/patch.diff").read(), flags=re.M)
-    meta = dict(id=sid, property=sid.split("_")[0], files=files,
+    meta = dict(id=sid, property=sid.split("_")[0], change=CH.get(sid, ""), files=files,
                 produced_by="independent sub-agent given only the property text and a scratch worktree (no access to /verif)",
                 needs_to_manifest="see notes.md", verified=ok,
                 confirmed=dict(at_repo_commit=d["head"], patch_applies=d["applies"] == "yes", demo_exit_clean=d["rc_clean"],
